@@ -316,7 +316,13 @@ pub enum Op {
         links: Vec<LinkSpec>,
     },
     /// C11: <layers>/<name> itself becomes a symlink to the canary directory
-    TopSymlink { layer: usize, abs: bool },
+    /// `sibling`: the link leads to another layer's directory instead (when there is one)
+    TopSymlink {
+        layer: usize,
+        abs: bool,
+        #[serde(default)]
+        sibling: bool,
+    },
     /// <layers>/<name>.sbom.<format>.json is a symbolic link: 0 dangling, 1 pointing at itself,
     /// 2 to a canary file, 3 to a canary directory (left by an earlier build or by a person)
     SbomLink { layer: usize, format: usize, kind: u8 },
@@ -328,6 +334,14 @@ pub enum Op {
     ExecDAlias { layer: usize, from: String, to: String, hard: bool },
     /// the layer directory itself gets this mode (e.g. 0555: a write-protected cache)
     ChmodLayer { layer: usize, mode: u32 },
+    /// <layers>/<name>.toml gets this mode (restored with the permissions it was stored with)
+    ChmodToml { layer: usize, mode: u32 },
+    /// the buildpack regenerates one of its exec.d source files in place (same path, new bytes)
+    RewriteSource {
+        idx: usize,
+        #[serde(with = "crate::hexbytes")]
+        data: Vec<u8>,
+    },
     /// end of build, stub lifecycle restore, start of next build
     Restore { kind: RestoreKind },
 }
@@ -354,8 +368,9 @@ impl Op {
             | Op::SbomLink { layer, .. }
             | Op::TomlLink { layer, .. }
             | Op::ExecDAlias { layer, .. }
-            | Op::ChmodLayer { layer, .. } => Some(*layer),
-            Op::Restore { .. } => None,
+            | Op::ChmodLayer { layer, .. }
+            | Op::ChmodToml { layer, .. } => Some(*layer),
+            Op::Restore { .. } | Op::RewriteSource { .. } => None,
         }
     }
 
@@ -381,6 +396,8 @@ impl Op {
             Op::TomlLink { .. } => "TomlLink",
             Op::ExecDAlias { .. } => "ExecDAlias",
             Op::ChmodLayer { .. } => "ChmodLayer",
+            Op::ChmodToml { .. } => "ChmodToml",
+            Op::RewriteSource { .. } => "RewriteSource",
             Op::Restore { .. } => "Restore",
         }
     }
